@@ -369,7 +369,7 @@ def check(pid, cfg, args):
         exit_code = 2
 
     # ledger consistency: obligations that silently disappeared
-    missing = [l for l in ledger if l not in {x[0] for x in labelled}] if ledger and not args.no_prove else []
+    missing = [l for l in ledger if l not in {x[0] for x in labelled}] if ledger and not args.no_prove and not args.write_ledger else []
     if missing and exit_code == 0:
         lines.append('UNDECIDED property=%s obligation=%s reason=obligation-set-changed (%d obligations of the ledger were not generated)' % (pid, missing[0], len(missing)))
         exit_code = 2
